@@ -448,6 +448,12 @@ impl VisitMut for Rw {
                 *e = n;
                 return;
             }
+            // R-INCLUDE: include_bytes!("file") -> an opaque &'static [u8] (the embedded asset's content is not modelled)
+            if em.mac.path.segments.last().map(|s| s.ident == "include_bytes").unwrap_or(false) {
+                self.log("R-INCLUDE", em.mac.path.segments[0].ident.span(), "include_bytes!(..) -> rws_include_bytes() (content opaque)");
+                *e = parse_quote! { rws_include_bytes() };
+                return;
+            }
             return;
         }
         if let Expr::Closure(_) = e {
